@@ -225,6 +225,7 @@ func phaseName(p int64) string {
 // checker
 
 type checker struct {
+	stalls atomic.Int64 // readers that made no progress for the whole read watchdog
 	r       *harness.Run
 	root    string
 	gate    modeGate
@@ -553,10 +554,19 @@ func (c *checker) readStream(img *image, di dirInfo, ch *syncer.StoreChannel, ru
 			}
 		}
 	}()
+	// a stall is never a verdict (inconclusive at most); once several readers of this run have
+	// stalled for the whole watchdog the later ones get a short one, so that a tree on which many
+	// readers stall still lets the rest of the images and alterations have their turn
+	wd := readWatchdog
+	if c.stalls.Load() >= 3 {
+		wd = readWatchdog / 8
+	}
 	select {
 	case <-done:
-	case <-time.After(readWatchdog):
+	case <-time.After(wd):
 		res.Stalled = true
+		c.stalls.Add(1)
+		c.r.Count("readers_stalled", 1)
 	}
 	wait.Close(nil)
 	rd.Close()
@@ -1230,6 +1240,9 @@ func (c *checker) checkImage(img *image, nAlter int) {
 		if img.Derived == "" && rng.Intn(c.r.N(3, 4)) == 0 {
 			c.deriveGap(img, id, di, rng)
 		}
+		if img.Derived == "" && rng.Intn(c.r.N(3, 4)) == 0 {
+			c.deriveSubsets(img, id, di, rng)
+		}
 	}
 	sig += faultTag
 	c.r.Distinct(sig)
@@ -1272,6 +1285,96 @@ func (c *checker) deriveGap(img *image, runId string, di dirInfo, rng *rand.Rand
 	ddi := analyse(d.Dirs[runId])
 	c.checkOpen(d, runId, ddi, rng.Intn(2) == 0, rng)
 	c.r.Distinct(fmt.Sprintf("derived-gap|before=%s|hole=%s|after=%s|rdb=%v", bucket(i), bucket(k), bucket(len(ds)-i-k), len(di.rdbs) > 0))
+}
+
+// deriveSubsets: fourth class of images.  os.RemoveAll (DelRunId, the reset in front of a new
+// snapshot) unlinks the files of a directory in no particular order, so a process that dies inside
+// it can leave ANY subset of them.  From a frozen image with a completed snapshot and/or log
+// segments the surviving subsets are enumerated - all of them when the image has at most five
+// files, otherwise the directed ones (snapshot plus exactly one segment, for every segment; only
+// the newest segment; everything but the first k segments) plus a PRNG sample - and each goes
+// through the same oracle as a frozen image.
+func (c *checker) deriveSubsets(img *image, runId string, di dirInfo, rng *rand.Rand) {
+	files := img.Dirs[runId]
+	if len(files) < 2 || len(files) > 40 {
+		return
+	}
+	ds := di.dataSegs()
+	isSeg := func(name string) bool { return strings.HasSuffix(name, ".aof") }
+	var keeps [][]bool
+	n := len(files)
+	if n <= 5 {
+		for m := 1; m < (1<<n)-1; m++ {
+			k := make([]bool, n)
+			for i := range k {
+				k[i] = m&(1<<i) != 0
+			}
+			keeps = append(keeps, k)
+		}
+	} else {
+		// snapshot (and whatever is not a segment) plus exactly one segment
+		for i := range files {
+			if !isSeg(files[i].Name) {
+				continue
+			}
+			k := make([]bool, n)
+			for j := range files {
+				k[j] = !isSeg(files[j].Name) || j == i
+			}
+			keeps = append(keeps, k)
+		}
+		// everything but the first j data segments
+		for j := 1; j < len(ds) && j <= 3; j++ {
+			gone := map[string]bool{}
+			for _, sg := range ds[:j] {
+				gone[fmt.Sprintf("%d.aof", sg.Left)] = true
+			}
+			k := make([]bool, n)
+			for i := range files {
+				k[i] = !gone[files[i].Name]
+			}
+			keeps = append(keeps, k)
+		}
+		for t := 0; t < 6; t++ {
+			k := make([]bool, n)
+			any, all := false, true
+			for i := range k {
+				k[i] = rng.Intn(2) == 0
+				any = any || k[i]
+				all = all && k[i]
+			}
+			if any && !all {
+				keeps = append(keeps, k)
+			}
+		}
+		if len(keeps) > 24 {
+			rng.Shuffle(len(keeps), func(i, j int) { keeps[i], keeps[j] = keeps[j], keeps[i] })
+			keeps = keeps[:24]
+		}
+	}
+	for si, k := range keeps {
+		var kept []imgFile
+		var gone []string
+		for i, f := range files {
+			if k[i] {
+				kept = append(kept, f)
+			} else {
+				gone = append(gone, f.Name)
+			}
+		}
+		d := &image{Case: img.Case, Idx: 2000 + 100*img.Idx + si, Aim: img.Aim, Params: img.Params, Shm: img.Shm, Resumed: img.Resumed,
+			Derived: fmt.Sprintf("directory removal torn at an arbitrary point over frozen image %d: %v unlinked, %d file(s) left", img.Idx, gone, len(kept)),
+			Dirs:    map[string][]imgFile{runId: kept}}
+		c.r.Count("derived_subset_images", 1)
+		ddi := analyse(kept)
+		c.checkOpen(d, runId, ddi, rng.Intn(2) == 0, rng)
+		sg, rg := ddi.hasGap()
+		hasRdb := false
+		for _, rf := range ddi.rdbs {
+			hasRdb = hasRdb || !rf.Tmp
+		}
+		c.r.Distinct(fmt.Sprintf("derived-subset|rdb=%v|segs=%s|gap=%v|after-snapshot-gap=%v", hasRdb, bucket(len(ddi.dataSegs())), sg, rg))
+	}
 }
 
 func min64(a, b int64) int64 {
